@@ -7,10 +7,14 @@ PROPS["C01"] = dict(
   jobs=[
     dict(name="c01-k1", **_c01_common,
          shards={"quick": op_shards([B_TET], ALL_MODES, _DELS) + op_shards([B_TET], [1], _SWAPS + [OP_ADD_E, OP_ADD_E_DUP, OP_ADD_V, OP_ADD_NV, OP_CLEAR, OP_BU_TOGGLE])
-                        + op_shards([B_LOWDIM], ALL_MODES, _DELS) + op_shards([B_LOWDIM], [0], [OP_SWAP_V, OP_SWAP_E, OP_ADD_E, OP_ADD_E_DUP, OP_BU_TOGGLE]),
+                        + op_shards([B_LOWDIM], ALL_MODES, _DELS) + op_shards([B_LOWDIM], [0], [OP_SWAP_V, OP_SWAP_E, OP_ADD_E, OP_ADD_E_DUP, OP_BU_TOGGLE])
+                        + op_shards([B_TET, B_LOWDIM, B_TET2_FACE, B_TRI2, B_EMPTY], [1], [OP_NONE]) + op_shards([B_TET], [1], [OP_SET_F, OP_SET_C]) + op_shards([B_LOWDIM], [1], [OP_SET_E])[9:13]
+                        + op_shards([B_LOWDIM], [1], [OP_ADD_F])[:3],
                  "thorough": op_shards([B_TET2_FACE, B_TET2_EDGE, B_TET2_VERTEX, B_TET3_RING, B_PRISM_PYR, B_TRI2], ALL_MODES, _DELS)
-                        + op_shards([B_TET2_FACE, B_TRI2], [1], _SWAPS + [OP_ADD_E, OP_BU_TOGGLE]) + op_shards([B_HEX], [0, 3], _DELS)},
-         bounds="K=1 operation from {delete_vertex/edge/face/cell, swap_*_indices, add_vertex, add_n_vertices, add_edge(dup on/off), clear, bottom-up off/on in every subset and order} "
+                        + op_shards([B_TET2_FACE, B_TRI2], [1], _SWAPS + [OP_ADD_E, OP_BU_TOGGLE]) + op_shards([B_HEX], [0, 3], _DELS)
+                        + op_shards([B_TET2_EDGE, B_TET2_VERTEX, B_TET3_RING, B_TET3_FAN, B_HEX, B_HEX2, B_PRISM_PYR], [1], [OP_NONE])
+                        + op_shards([B_LOWDIM], [1], [OP_SET_E, OP_ADD_F]) + op_shards([B_TRI2], [1], [OP_SET_E])[:20] + op_shards([B_TET2_FACE], [1], [OP_SET_F, OP_SET_C])},
+         bounds="K=0 (the base as built by add_vertex/add_edge/add_face/add_cell) and K=1 operation from {delete_vertex/edge/face/cell, swap_*_indices, add_vertex, add_n_vertices, add_edge(dup on/off), add_face(3 vertices), set_edge, set_face (rotated / reversed list), set_cell (rotated / reversed list), clear, bottom-up off/on in every subset and order} "
                 "with every argument tuple of the base mesh (symbolic selector, 8 tuples per query), every (deferred x fast) mode for deletions; symbolic target probes (vertex, halfedge, halfface, cell); "
                 "bases quick: one tetrahedron, low-dimensional mesh (triangle + dangling edge + isolated vertex + duplicate edge); thorough adds two tets sharing face/edge/vertex, 3-tet ring, prism+pyramid, two triangles, one hexahedron"),
     dict(name="c01-k2", **_c01_common,
